@@ -15,7 +15,8 @@ PROPERTY = "C04"
 RULE = ("Hypothesis synchronized pairs (3-24 poses drawn, bulk 2000): estimate = similarity image of the reference "
         "(scale ratio 1e-2..1e2) plus noise 0..100% of extent, both storage modes with pre-read views, mode in "
         "{rigid, similarity, scale-only, origin}, n in {-1, 3..N}; plus ape()/rpe() with every combination of "
-        "{align, correct_scale, align_origin, n_to_align}. Non-trivial = noise > 0 or n < N or scale != 1; distinct by SHA-1")
+        "{align, correct_scale, align_origin, n_to_align}. Non-trivial = noise > 0 or n < N or scale != 1; distinct by SHA-1"
+        ' Round-3 additions: CLI-style scale-only call (both flags), n_to_align through ape()/rpe() with garbage beyond n, origin alignment of geo-referenced (1e3..1e7 m) nearly coincident starts.')
 ASSUMPTIONS = ["RMSE comparisons in 80-bit extended precision with a float64 noise floor",
                "idempotence and parameter comparisons only for well-conditioned cases (reference singular-value gap ratio > 1e-3)"]
 
